@@ -110,18 +110,29 @@ def cells(tier, seed):
         out.append(mk("triv", 3, 2, 1, 0))
     # every subgroup of B_2 (10) and of B_3 (98; quick: a seeded third of them at small M), given by generators
     import random
-    for order, gens in all_subgroups(2):
+
+    def other_same_order(subs, i):
+        """a different subgroup of the same order (asked for FIRST in the same process: the result for a group must not depend on
+        which groups the generator served before - module-level caches)"""
+        same = [j for j, (o, _) in enumerate(subs) if o == subs[i][0] and j != i]
+        return subs[same[i % len(same)]][1] if same else None
+    subs2 = all_subgroups(2)
+    for i, (order, gens) in enumerate(subs2):
         for M in ((2, 3) if tier == "quick" else (2, 3, 4)):
             for k in (0, 1, 2):
                 for p in (0, 1):
-                    out.append({"G": "gen", "gens": gens, "order": order, "D": 2, "M": M, "k": k, "p": p, "scale": "normalize"})
-    subs3 = all_subgroups(3)
+                    out.append({"G": "gen", "gens": gens, "order": order, "D": 2, "M": M, "k": k, "p": p, "scale": "normalize",
+                                "prev_gens": other_same_order(subs2, i)})
+    subs3_all = all_subgroups(3)
+    idx3 = list(range(len(subs3_all)))
     if tier == "quick":
-        subs3 = random.Random(seed).sample(subs3, 24)
-    for order, gens in subs3:
+        idx3 = random.Random(seed).sample(idx3, 24)
+    for i in idx3:
+        order, gens = subs3_all[i]
         for M, k in (((2, 1), (3, 0)) if tier == "quick" else ((2, 0), (2, 1), (2, 2), (3, 0), (3, 1), (3, 2))):
             for p in (0, 1):
-                out.append({"G": "gen", "gens": gens, "order": order, "D": 3, "M": M, "k": k, "p": p, "scale": "normalize"})
+                out.append({"G": "gen", "gens": gens, "order": order, "D": 3, "M": M, "k": k, "p": p, "scale": "normalize",
+                            "prev_gens": other_same_order(subs3_all, i)})
     out.append({"G": "B", "D": 2, "M": 3, "k": -1, "p": 0, "scale": "normalize", "blk": True})
     out.append({"G": "B", "D": 3, "M": 3, "k": -1, "p": 0, "scale": "normalize", "blk": True})
     return out
@@ -148,6 +159,10 @@ def run_cell(cfg, cx):
         _blocks(cfg, cx, ops)
         return
     ckey = f"G={G}:D={D}:M={M}:k={k}:p={p}:scale={cfg['scale']}"
+    if cfg.get("prev_gens"):
+        from props.common import gmat as _gm
+        prev = [np.array(e).reshape(D, D) for e in sorted(_closure([_gm(q, D) for q in cfg["prev_gens"]], D))]
+        geom.get_unique_invariant_filters(M, k, p, D, prev, cfg["scale"])  # history: another group of the same order was served first
     filters = geom.get_unique_invariant_filters(M, k, p, D, ops, cfg["scale"])
     n = len(filters)
     shape = (M,) * D + (D,) * k
